@@ -114,9 +114,10 @@ class FileResolver:
             ]
 
             # Collect gitignore specs for this directory (including ancestors)
-            gitignore_specs: list[pathspec.PathSpec] = []
+            gitignore_specs: list[tuple[Path, pathspec.PathSpec]] = []
             if self._config.respect_gitignore:
                 gitignore_specs = self._get_gitignore_chain(current, root)
+            resolved_current = current.resolve() if gitignore_specs else current
 
             # Yield files matching include patterns (applying gitignore + tool ignore)
             for filename in filenames:
@@ -129,7 +130,7 @@ class FileResolver:
                     continue
                 if self._exceeds_max_size(filepath):
                     continue
-                if any(spec.match_file(filename) for spec in gitignore_specs):
+                if self._is_gitignored(gitignore_specs, resolved_current / filename, False):
                     continue
                 # Match the name and, like for directories, the path relative to the walk
                 # root, so that rules containing a slash (docs/draft.md) apply to files too.
@@ -159,9 +160,9 @@ class FileResolver:
 
         if self._config.respect_gitignore:
             root = walk_root if walk_root is not None else current_dir
-            for spec in self._get_gitignore_chain(current_dir, root):
-                if spec.match_file(dir_with_slash):
-                    return True
+            chain = self._get_gitignore_chain(current_dir, root)
+            if chain and self._is_gitignored(chain, current_dir.resolve() / dirname, True):
+                return True
 
         if tool_ignore and tool_ignore.match_file(dir_with_slash):
             return True
@@ -207,9 +208,30 @@ class FileResolver:
             self._gitignore_cache[directory] = load_gitignore(directory)
         return self._gitignore_cache[directory]
 
-    def _get_gitignore_chain(self, directory: Path, walk_root: Path) -> list[pathspec.PathSpec]:
-        """Collect all gitignore specs from walk_root down to directory (inclusive)."""
-        specs: list[pathspec.PathSpec] = []
+    @staticmethod
+    def _is_gitignored(
+        chain: list[tuple[Path, pathspec.PathSpec]], path: Path, is_dir: bool
+    ) -> bool:
+        """
+        Apply a chain of `.gitignore` specs the way git does: every pattern is matched
+        against the path relative to the directory of its `.gitignore` file (so that
+        patterns with a slash and anchored patterns work), the last matching pattern
+        decides, and deeper files are read after shallower ones (so that they can
+        re-include with `!`).
+        """
+        ignored = False
+        for spec_dir, spec in chain:
+            rel = path.relative_to(spec_dir).as_posix() + ("/" if is_dir else "")
+            include = spec.check_file(rel).include
+            if include is not None:
+                ignored = include
+        return ignored
+
+    def _get_gitignore_chain(
+        self, directory: Path, walk_root: Path
+    ) -> list[tuple[Path, pathspec.PathSpec]]:
+        """Collect (directory, spec) for all gitignore files from walk_root down to directory."""
+        specs: list[tuple[Path, pathspec.PathSpec]] = []
         resolved_root = walk_root.resolve()
         resolved_dir = directory.resolve()
         # Walk from root down to current directory
@@ -217,7 +239,7 @@ class FileResolver:
         while True:
             spec = self._get_gitignore(current)
             if spec is not None:
-                specs.append(spec)
+                specs.append((current, spec))
             if current == resolved_dir:
                 break
             try:
